@@ -181,7 +181,7 @@ func randUniprotDoc(r *rand.Rand, n int, small bool) ([]upEntry, string) {
 			}
 			sb.WriteString("  <proteinExistence type=\"inferred from homology\"/>\n")
 		}
-		fmt.Fprintf(&sb, "  <sequence length=\"%d\" mass=\"%d\" checksum=\"%016X\" modified=\"%s\" version=\"1\">%s</sequence>\n</entry>\n", len(e.Seq), 110*len(e.Seq), r.Uint64(), upDate(r), spell(e.Seq))
+		fmt.Fprintf(&sb, "  <sequence length=\"%d\" mass=\"%d\" checksum=\"%016X\" modified=\"%s\" version=\"1\">%s</sequence>\n</entry>\n", len(strings.Join(strings.Fields(e.Seq), "")), 110*len(e.Seq), r.Uint64(), upDate(r), spell(e.Seq))
 		if r.Intn(6) == 0 {
 			sb.WriteString("<!-- between entries -->\n")
 		}
